@@ -1,4 +1,5 @@
 """C20 A compose directory is resolved to the same metadata in every supported layout."""
+import builtins
 import json
 import os
 import shutil
@@ -133,11 +134,27 @@ def layout_case(case):
         mdir = os.path.join(root, resolved, "metadata") if resolved else os.path.join(root, "metadata")
         for kind in case["access_order"]:
             candidates = here.get(kind, {})
+            opened = []
+            real_open = builtins.open
+
+            def tracing_open(file, *a, **kw):
+                if isinstance(file, str) and file.startswith(tmp):
+                    opened.append(os.path.basename(file))
+                return real_open(file, *a, **kw)
+            builtins.open = tracing_open
             try:
                 obj = getattr(compose, kind)
                 err = None
             except Exception as exc:  # noqa
                 obj, err = None, exc
+            finally:
+                builtins.open = real_open
+            if err is None:
+                # whatever order the candidates are probed in: a file that was opened and found unusable must surface,
+                # it must not be skipped silently in favour of another candidate
+                swallowed = [f for f in opened if candidates.get(f, "valid") != "valid"]
+                check(not swallowed, "unusable-file-silently-skipped", lambda: "%s: %r was read, is unusable (%s), and the access still succeeded" % (
+                    kind, swallowed[0], candidates[swallowed[0]]))
             if err is not None:
                 # the failure is not cached away: asking again fails again, in the same way
                 try:
